@@ -21,6 +21,7 @@ from xsdata.formats.dataclass.serializers import XmlSerializer
 from xsdata.formats.dataclass.serializers.config import SerializerConfig
 
 from .. import codegen_run as cg
+from .. import compose_bind as cb
 from .. import infoset
 from .. import schema_bind as sb
 from ..tlc import MachineryError
@@ -130,13 +131,104 @@ def run_schema(ctx, schema, docs, optsets):
                 ctx.violation(f"options {oname} and {vals[0][0]} produce different documents for the same input", {"xsd": xsd, "xml": xml})
 
 
+def run_compose_schema(ctx, schema, cases, optsets):
+    """One component-level schema (spec/Compose.tla) x its documents x option sets."""
+    import tempfile
+    import shutil
+
+    files = cb.schema_files(schema)
+    work = tempfile.mkdtemp(prefix="xv-cmp-")
+    try:
+        try:
+            val = cb.Validator(files, work)
+        except Exception as ex:  # noqa: BLE001
+            raise MachineryError(f"libxml2 rejects a schema the specification built: {ex}\n{files}") from ex
+        results = {}
+        for oname, opts in optsets:
+            gen = cg.generate(files, ["main.xsd"], options=opts)
+            try:
+                info = {"schema": schema, "xsd": files, "options": oname}
+                if gen.error is not None:
+                    ctx.violation(f"generation failed ({oname}): {type(gen.error).__name__}: {gen.error}", info)
+                    continue
+                root, err = find_root(gen)
+                if root is None:
+                    ctx.violation(f"generated package does not import / has no Root ({oname}): {err}", {**info, "files": {k: v[:1500] for k, v in gen.files.items()}})
+                    continue
+                xctx = XmlContext(models_package=gen.pkg)
+                for c in cases:
+                    xml = cb.doc_xml(schema, c["doc"])
+                    ok, log = val(xml)
+                    if not ok:
+                        raise MachineryError(f"the specification built a document libxml2 rejects:\n{xml}\n{files}\n{log}")
+                    ctx.case(("cmp", json.dumps(schema, sort_keys=True), xml, oname))
+                    dinfo = {**info, "xml": xml}
+                    try:
+                        obj = XmlParser(context=xctx, config=STRICT).from_string(xml, root)
+                        out = XmlSerializer(context=xctx, config=SerializerConfig(xml_declaration=False)).render(obj)
+                    except Exception as ex:  # noqa: BLE001
+                        ctx.violation(f"schema-valid document does not parse/serialise under strict settings ({oname}): {type(ex).__name__}: {ex}", dinfo)
+                        continue
+                    try:
+                        ci, co = cb.canon(infoset.parse(xml)), cb.canon(infoset.parse(out))
+                    except Exception as ex:  # noqa: BLE001
+                        ctx.violation(f"output is not well-formed: {ex}", {**dinfo, "out": out})
+                        continue
+                    bag_i, bag_o = sorted(map(repr, ci[3])), sorted(map(repr, co[3]))
+                    if ci[:3] != co[:3] or bag_i != bag_o:
+                        ctx.violation(f"elements / attributes / values (incl. xsi:type) differ between input and output ({oname}): "
+                                      f"lost {[x for x in bag_i if x not in bag_o][:3]}, invented {[x for x in bag_o if x not in bag_i][:3]}", {**dinfo, "out": out})
+                    elif c["uniform"]:
+                        # no repeating group mixes element names: the document is a sequence of single elements
+                        if ci != co:
+                            ctx.violation(f"element order not preserved although no repeating group mixes names ({oname})", {**dinfo, "out": out})
+                        ok2, log2 = val(out)
+                        if not ok2:
+                            ctx.violation(f"output is not schema-valid ({oname}): {log2}", {**dinfo, "out": out})
+                    results.setdefault(xml, {})[oname] = (co[:3], bag_o)
+            finally:
+                gen.cleanup()
+        for xml, per in results.items():
+            vals = list(per.items())
+            for oname, v in vals[1:]:
+                if v != vals[0][1]:
+                    ctx.violation(f"options {oname} and {vals[0][0]} produce different documents for the same input", {"xsd": files, "xml": xml})
+    finally:
+        shutil.rmtree(work, ignore_errors=True)
+
+
+def run_compose(ctx):
+    mc = ("SPECIFICATION Spec\nCONSTANTS\n  MaxDocIdx = 5\nCONSTRAINT MCOnly\nINVARIANT InvFixpointIsWalk\nINVARIANT InvLegalDerivation\n"
+          "INVARIANT InvHeadsAccepted\nINVARIANT InvOccRespected\nCHECK_DEADLOCK FALSE\n")
+    ctx.tlc("MC_Compose", "run.cfg", extra_files={"run.cfg": mc}, label="MC_Compose substitution closure / derivation / abstractness", timeout=1500)
+    res = ctx.tlc("MC_Compose", "run.cfg", workers=1, simulate=f"num={ctx.pick(160, 4000)}", depth=15,
+                  extra_files={"run.cfg": "SPECIFICATION Spec\nCONSTANTS\n  MaxDocIdx = 5\nCONSTRAINT Emit\nCHECK_DEADLOCK FALSE\n"},
+                  label="Gen_Compose schemas and documents", tags=("CMP",), timeout=3000)
+    by = {}
+    for _t, c in res.printed:
+        if c["hasInstance"]:
+            by.setdefault(json.dumps(c["schema"], sort_keys=True), {})[json.dumps(c["doc"], sort_keys=True)] = c
+    rnd = random.Random(ctx.seed + 2)
+    optsets = sb.option_sets()
+    for n, (k, docs) in enumerate(by.items()):
+        pick = [optsets[0], optsets[1]] + ([rnd.choice(optsets[2:])] if n % 3 == 0 or not ctx.quick else [])
+        cases = list(docs.values())
+        run_compose_schema(ctx, cases[0]["schema"], cases, pick)
+        if n == 0:
+            ctx.sample({"xsd": cb.schema_files(cases[0]["schema"]), "document": cb.doc_xml(cases[0]["schema"], cases[0]["doc"])})
+    ctx.extra["compose_schemas"] = len(by)
+
+
 def run(ctx):
     ctx.rule = (
         "TLC: content models over seq/choice/all x occurrence ranges x 2 elements x nested group, exhaustive check that the "
         "constructive document generator and the independent acceptor agree; schemas (with namespaces, forms, named/anonymous "
         "types, attribute variants, simple content) and documents drawn by simulation. Real code: XSD + XML text validated by "
         "libxml2, real generator under several output-only option sets, strict parse, serialise, value-space comparison, order "
-        "and re-validation where OrderPreserving. A case is a distinct (schema, document, option set)."
+        "and re-validation where OrderPreserving. Second family (spec/Compose.tla): substitution groups (flat/chained, abstract heads), "
+        "extension + xsi:type (abstract bases), named groups, attribute groups, recursion, wildcards, include/import; TLC checks the "
+        "construction (closure fixpoint = parent walk, legal derivation, nothing abstract instantiated), same real-code pipeline with a "
+        "canonical comparison that resolves xsi:type. A case is a distinct (schema, document, option set)."
     )
     ctx.assumptions += ["stand-ins for jinja2/click/toposort/ruff (see DESIGN.md section 5); libxml2 as independent validator",
                         "repetitions in documents bounded by 2"]
@@ -162,6 +254,7 @@ def run(ctx):
             d0 = next(iter(ent["docs"].values()))[0]
             ctx.sample({"xsd": sb.schema_xsd(ent["schema"]), "document": sb.doc_xml(ent["schema"], d0)})
     ctx.extra["schemas"] = len(by_schema)
+    run_compose(ctx)
     cg.cleanup_all()
 
 
